@@ -79,13 +79,14 @@ static void run_exec(std::ofstream &out, const Cfg &c, long gi) {
 	sim::Sched sc(n, c.seed, c.rndorder);
 	sim::Net netu(n), netb(n);
 	for (size_t i = 0; i < n; i++) if (c.role[i] == 2) { netu.cut[i] = true; netb.cut[i] = true; }
-	if (c.tamper_from >= 0) { sim::Net::Tamper tp; tp.from = (size_t)c.tamper_from; tp.to = (size_t)c.tamper_to; tp.index = 0; tp.add = "1"; tp.drop = false; netu.tampers.push_back(tp); }
+	if (c.tamper_from >= 0) { sim::Net::Tamper tp; tp.from = (size_t)c.tamper_from; tp.to = (size_t)c.tamper_to; tp.index = (long)(c.seed % 2); tp.add = "1"; tp.drop = false; netu.tampers.push_back(tp); }
 	std::vector<bool> active(n, true);
 	for (size_t i = 0; i < n; i++) if (c.role[i] == 2) active[i] = false;
 	size_t fbits = mpz_sizeinbase(GP, 2), sbits = mpz_sizeinbase(GQ, 2);
 	time_t TO = aiounicast::aio_timeout_middle;
 	unsigned long msgval = rnd(5) == 0 ? 0 : (rnd(4) == 0 ? (unsigned long)q : (rnd(3) == 0 ? (unsigned long)(q - 1) : 1 + rnd(1000)));
 	size_t dealer = rnd(n); while (c.role[dealer] == 2) dealer = (dealer + 1) % n;
+	if (c.proto == "vss" && c.tamper_from >= 0) dealer = (size_t)c.tamper_from;      // only the dealer sends private shares
 	unsigned long sigma_val = rnd(3) == 0 ? 0 : rnd((unsigned long)q);
 	sim::run(sc, active, [&](size_t i) {
 		json hc = json::array(); my_hcalls = &hc;
@@ -203,6 +204,46 @@ int main(int argc, char **argv) {
 			if (getenv("VERIF_ONLY") && atol(getenv("VERIF_ONLY")) != x) continue;
 			run_exec(out, c, gi);
 		}
+		return 0;
+	}
+	if (argc >= 3 && !strcmp(argv[1], "verify")) {
+		// the library's verifiers on the range-boundary catalogue in the group p=23, q=11, g=2 (h=3)
+		std::ofstream out(argv[2]);
+		GP = Mpz(23); GQ = Mpz(11); GG = Mpz(2); GH = Mpz(3); mpz_sub_ui(GP1, GP, 1);
+		json ev; ev["e"] = "Reset"; ev["proto"] = "verify"; ev["grp"] = {23, 11, 2, 3}; ev["n"] = 3; ev["t"] = 1; ev["role"] = {0, 0, 0}; ev["tamper"] = {-1, -1}; ev["seed"] = 0;
+		out << ev.dump() << "\n";
+		CanettiGennaroJareckiKrawczykRabinDSS dss(3, 1, 0, GP, GQ, GG, GH, 5, 4, false, false);
+		GennaroJareckiKrawczykRabinNTS nts(3, 1, 0, GP, GQ, GG, GH, 5, 4, false, false);
+		long ms[] = {0, 1, 5, 10, 11, 12};
+		for (long x = 1; x < 11; x += 3) {
+			Mpz y; { Mpz X(x); mpz_powm(y, GG, X, GP); }
+			mpz_set(dss.y, y); mpz_set(nts.y, y);
+			for (int mi = 0; mi < 6; mi++) for (long r = -1; r <= 12; r++) for (long sv = -1; sv <= 12; sv++) {
+				Mpz M(ms[mi]), R(r), S(sv);
+				json o; o["e"] = "DssVer"; o["y"] = y.l(); o["m"] = ms[mi]; o["r"] = r; o["s"] = sv;
+				try { o["res"] = dss.Verify(M, R, S); } catch (std::exception &ex) { o["exc"] = ex.what(); o["res"] = false; }
+				out << o.dump() << "\n";
+			}
+			// Schnorr: a textbook signature (k, c = H(m, g^k), s = k + c x) and its neighbours
+			for (int mi = 0; mi < 6; mi++) for (long k = 1; k < 11; k += 4) {
+				Mpz M(ms[mi]), K(k), rr, cc, ss, X(x);
+				mpz_powm(rr, GG, K, GP);
+				tmcg_mpz_shash(cc, 2, (mpz_srcptr)M.v, (mpz_srcptr)rr.v);
+				mpz_mul(ss, cc, X); mpz_add(ss, ss, K); mpz_mod(ss, ss, GQ);
+				const char *muts[] = {"none", "s+1", "s-1", "s+q", "c+1", "s=0"};
+				for (int mu = 0; mu < 6; mu++) {
+					Mpz c2 = cc, s2 = ss;
+					if (mu == 1) mpz_add_ui(s2, s2, 1); if (mu == 2) mpz_sub_ui(s2, s2, 1); if (mu == 3) mpz_add(s2, s2, GQ);
+					if (mu == 4) mpz_add_ui(c2, c2, 1); if (mu == 5) mpz_set_ui(s2, 0);
+					json hc = json::array(); my_hcalls = &hc;
+					json o; o["e"] = "NtsVer"; o["y"] = y.l(); o["m"] = ms[mi]; o["c"] = num(c2); o["s"] = num(s2); o["mut"] = muts[mu];
+					try { o["res"] = nts.Verify(M, c2, s2); } catch (std::exception &ex) { o["exc"] = ex.what(); o["res"] = false; }
+					my_hcalls = NULL; o["hv"] = hc;
+					out << o.dump() << "\n";
+				}
+			}
+		}
+		json e2; e2["e"] = "End"; out << e2.dump() << "\n";
 		return 0;
 	}
 	fprintf(stderr, "usage: drv_dkg run <seed> <execs> <trace> [dkg|nts|vss|dss] [maxn]\n");
